@@ -129,6 +129,9 @@ type Env07 struct {
 	History      int    `json:"history"`  // unrelated packagings earlier in the process
 	Neighbour    bool   `json:"neighbour"`
 	Child        bool   `json:"child"`              // cross-process through the CLI
+	Umask        int    `json:"umask,omitempty"`     // process umask during the build (0 = leave)
+	EnvNoise     int    `json:"env_noise,omitempty"` // which set of unrelated ambient variables (HOME, USER, LANG, TMPDIR, ...) is installed
+	Hostname     string `json:"hostname,omitempty"`  // child only: host name inside a private UTS namespace
 	Relocate     bool   `json:"relocate,omitempty"` // build from a second copy of the tree at another path, created in reverse order
 }
 
